@@ -6,4 +6,5 @@ import MiniconfVerif.Props.C02
 #print axioms MiniconfVerif.C02.flatten_adds_no_depth
 #print axioms MiniconfVerif.C02.one_walk
 #print axioms MiniconfVerif.C02.operations_agree
+#print axioms MiniconfVerif.C02.structural_depths
 #print axioms MiniconfVerif.C02.indices_in_range
